@@ -39,6 +39,12 @@ import (
 	"github.com/celestiaorg/celestia-node/header"
 	"github.com/celestiaorg/celestia-node/share"
 	"github.com/celestiaorg/celestia-node/share/availability"
+	"github.com/celestiaorg/celestia-node/share/availability/light"
+	"github.com/celestiaorg/celestia-node/share/eds"
+	"github.com/celestiaorg/celestia-node/share/eds/edstest"
+	"github.com/celestiaorg/celestia-node/share/shwap"
+	"github.com/celestiaorg/celestia-node/header/headertest"
+	"github.com/celestiaorg/rsmt2d"
 
 	"verifharness/vh"
 )
@@ -66,6 +72,8 @@ type scenario struct {
 	Steps  []step `json:"steps"`
 	Random int    `json:"random"` // >0: seeded random walk of that many stimuli instead of Steps
 	MaxH   int    `json:"maxh"`
+	Node   bool   `json:"node"` // the DASer samples through the real light availability (LightNode.tla)
+	K      int    `json:"k"`    // sample amount in node mode
 }
 
 func mkHeader(h uint64) *header.ExtendedHeader {
@@ -111,6 +119,7 @@ type world struct {
 	attempt   map[uint64]int // last observed attempt count per height (this instance)
 
 	d    *das.DASer
+	la   *light.ShareAvailability // node mode: the real light availability of this instance
 	sub  *subStub
 	ds   *logDS
 	stop chan struct{}
@@ -135,6 +144,122 @@ type scen struct {
 	lastStats *das.SamplingStats
 	attempt   map[uint64]int // last observed attempt count (hook state), for BackoffMonotone
 	lost      map[uint64]bool // heights already reported as lost in this scenario (no derived reports)
+
+	// node mode (spec/node/LightNode.tla): the DASer samples through the REAL light availability
+	// over a scripted getter serving real samples of real squares
+	node      bool
+	k         int
+	t         *testing.T
+	blocks    map[uint64]*blk
+	delivered map[uint64]map[shwap.SampleCoords]bool // coordinates served with a valid sample, per height
+	requests  map[uint64][][]shwap.SampleCoords
+}
+
+type blk struct {
+	eds *rsmt2d.ExtendedDataSquare
+	hdr *header.ExtendedHeader
+}
+
+// block returns the (cached) real square and header of a height.
+func (s *scen) block(h uint64) *blk {
+	s.okMu.Lock()
+	defer s.okMu.Unlock()
+	b := s.blocks[h]
+	if b == nil {
+		sq := edstest.RandEDS(s.t, 2)
+		b = &blk{eds: sq, hdr: headertest.ExtendedHeaderFromEDS(s.t, h, sq)}
+		s.blocks[h] = b
+	}
+	return b
+}
+
+func (s *scen) hdr(h uint64) *header.ExtendedHeader {
+	if s.node {
+		return s.block(h).hdr
+	}
+	return mkHeader(h)
+}
+
+// nodeGetter is the getter behind the real light availability: the scripted outcome of the height
+// decides what it serves -- everything asked for ("ok"/"outside"), all but the first coordinate
+// ("fail"), or nothing together with an error wrapping context.Canceled ("cancel").
+type nodeGetter struct {
+	shwap.Getter
+	w *world
+}
+
+func (g nodeGetter) GetSamples(ctx context.Context, hdr *header.ExtendedHeader, idxs []shwap.SampleCoords) ([]shwap.Sample, error) {
+	w := g.w
+	s := w.sc
+	hh := hdr.Height()
+	if err := ctx.Err(); err != nil {
+		return nil, err
+	}
+	w.mu.Lock()
+	o := w.outcome[hh]
+	delete(w.outcome, hh)
+	dead := w.dead
+	w.mu.Unlock()
+	if dead {
+		return nil, errors.New("verif: instance abandoned")
+	}
+	s.okMu.Lock()
+	s.requests[hh] = append(s.requests[hh], append([]shwap.SampleCoords(nil), idxs...))
+	s.okMu.Unlock()
+	b := s.block(hh)
+	acc := eds.Rsmt2D{ExtendedDataSquare: b.eds}
+	out := make([]shwap.Sample, len(idxs))
+	serve := func(i int) {
+		smp, err := acc.Sample(ctx, idxs[i])
+		if err != nil {
+			s.rep.Inconclusivef("cannot build sample %v of height %d: %v", idxs[i], hh, err)
+			return
+		}
+		out[i] = smp
+		s.okMu.Lock()
+		if s.delivered[hh] == nil {
+			s.delivered[hh] = map[shwap.SampleCoords]bool{}
+		}
+		s.delivered[hh][idxs[i]] = true
+		s.okMu.Unlock()
+	}
+	switch o {
+	case "ok", "outside":
+		for i := range idxs {
+			serve(i)
+		}
+		return out, nil
+	case "fail":
+		for i := 1; i < len(idxs); i++ {
+			serve(i)
+		}
+		return out, errors.New("verif: scripted partial retrieval")
+	case "cancel":
+		return nil, fmt.Errorf("verif: scripted getter error: %w", context.Canceled)
+	}
+	s.rep.Inconclusivef("getter called for height %d without a scripted outcome", hh)
+	return nil, errors.New("verif: no outcome scripted")
+}
+
+// nodeAvail adapts the real light availability: a nil verdict is what the DASer counts as sampled.
+type nodeAvail struct{ w *world }
+
+func (a nodeAvail) SharesAvailable(ctx context.Context, h *header.ExtendedHeader) error {
+	err := a.w.la.SharesAvailable(ctx, h)
+	if err == nil {
+		a.w.sc.markOK(h.Height())
+	}
+	return err
+}
+
+// need = min(K, area of the extended square)
+func (s *scen) need() int { return min(s.k, 16) }
+
+// verifiedEnough: the end-to-end property of LightNode.tla for one height
+func (s *scen) verifiedEnough(h uint64) bool {
+	s.okMu.Lock()
+	defer s.okMu.Unlock()
+	return len(s.delivered[h]) >= s.need()
 }
 
 var cur atomic.Pointer[world]
@@ -356,13 +481,13 @@ type storeStub struct {
 }
 
 func (s storeStub) Tail(context.Context) (*header.ExtendedHeader, error) {
-	return mkHeader(atomic.LoadUint64(&s.sc.tail)), nil
+	return s.sc.hdr(atomic.LoadUint64(&s.sc.tail)), nil
 }
 func (s storeStub) Head(context.Context, ...libhead.HeadOption[*header.ExtendedHeader]) (*header.ExtendedHeader, error) {
-	return mkHeader(atomic.LoadUint64(&s.sc.storeHead)), nil
+	return s.sc.hdr(atomic.LoadUint64(&s.sc.storeHead)), nil
 }
 func (s storeStub) GetByHeight(_ context.Context, h uint64) (*header.ExtendedHeader, error) {
-	return mkHeader(h), nil
+	return s.sc.hdr(h), nil
 }
 
 // logDS records every checkpoint written by the DASer.
@@ -483,7 +608,7 @@ func (s *scen) recentInFlight(h uint64) bool {
 
 func (s *scen) replay() any {
 	return map[string]any{"scenario": s.def.Name, "range": s.def.Range, "conc": s.def.Conc, "bg": s.def.Bg,
-		"steps": s.script}
+		"node": s.node, "k": s.k, "steps": s.script}
 }
 
 // ---------------------------------------------------------------- instance life-cycle
@@ -497,7 +622,12 @@ func (s *scen) start() error {
 	if s.def.Bg {
 		bg = time.Millisecond
 	}
-	d, err := das.NewDASer(availStub{w}, w.sub, storeStub{sc: s}, w.ds,
+	var avail share.Availability = availStub{w}
+	if s.node {
+		w.la = light.NewShareAvailability(nodeGetter{w: w}, s.base, nil, light.WithSampleAmount(uint(s.k)))
+		avail = nodeAvail{w}
+	}
+	d, err := das.NewDASer(avail, w.sub, storeStub{sc: s}, w.ds,
 		das.WithSamplingRange(uint64(s.def.Range)), das.WithConcurrencyLimit(s.def.Conc),
 		das.WithBackgroundStoreInterval(bg), das.WithSampleTimeout(time.Hour))
 	if err != nil {
@@ -553,6 +683,11 @@ func (s *scen) stopInstance() error {
 	}
 	if len(puts) != 2 {
 		s.rep.Inconclusivef("Stop wrote %d checkpoints, expected 2", len(puts))
+	}
+	if w.la != nil {
+		if err := w.la.Close(ctx); err != nil {
+			s.rep.Inconclusivef("light availability Close: %v", err)
+		}
 	}
 	w.mu.Lock()
 	w.dead = true
@@ -692,7 +827,7 @@ func (s *scen) doHead(h uint64) error {
 	}
 	n := w.nEvents()
 	select {
-	case w.sub.ch <- mkHeader(h):
+	case w.sub.ch <- s.hdr(h):
 	case <-time.After(waitT):
 		return errors.New("subscription not consuming")
 	}
@@ -810,6 +945,18 @@ func (s *scen) checkStats(st das.SamplingStats) {
 			s.rep.Violate("C04/stats/sampled-chain-head-above-unsampled",
 				fmt.Sprintf("SampledChainHead=%d but height %d was never sampled successfully (stats %+v)", st.SampledChainHead, h, st), s.replay())
 			break
+		}
+	}
+	// LightNode.tla ReportedHeadVerified: below the reported sampled-chain head every height was
+	// verified at >= min(K, area) distinct coordinates
+	if s.node {
+		for h := s.tail; h <= st.SampledChainHead; h++ {
+			if !s.verifiedEnough(h) {
+				s.rep.Violate("NODE/sampled-head-above-unverified-height",
+					fmt.Sprintf("SampledChainHead=%d but only %d distinct coordinates of height %d were delivered with valid samples (need %d)",
+						st.SampledChainHead, len(s.delivered[h]), h, s.need()), s.replay())
+				break
+			}
 		}
 	}
 	// C04: every height up to the network head is sampled, queued, in flight or failed
@@ -1146,6 +1293,17 @@ func (s *scen) drain() {
 					return
 				}
 			}
+			if s.node {
+				for h := s.tail; h <= st.NetworkHead; h++ {
+					if !s.verifiedEnough(h) {
+						s.rep.Violate("NODE/sampled-without-verifying-the-sample-set",
+							fmt.Sprintf("the DASer is idle and reports everything up to %d as sampled, but only %d distinct coordinates of height %d were delivered with valid samples (need %d)",
+								st.NetworkHead, len(s.delivered[h]), h, s.need()), s.replay())
+						return
+					}
+				}
+				s.rep.Count("node_drains_verified", 1)
+			}
 			// WaitCatchUp must return now
 			ctx, cancel := context.WithTimeout(context.Background(), 3*time.Second)
 			err := w.d.WaitCatchUp(ctx)
@@ -1166,8 +1324,10 @@ func (s *scen) drain() {
 
 func dsQueryAll() query.Query { return query.Query{} }
 
-func runScenario(def scenario, rep *vh.Report, traceFile *os.File, seed int64) {
-	s := &scen{def: def, rep: rep, tr: vh.NewTrace("x"), rng: rand.New(rand.NewSource(seed)),
+func runScenario(t *testing.T, def scenario, rep *vh.Report, traceFile *os.File, seed int64) {
+	s := &scen{t: t, node: def.Node, k: def.K, blocks: map[uint64]*blk{}, delivered: map[uint64]map[shwap.SampleCoords]bool{},
+		requests: map[uint64][][]shwap.SampleCoords{},
+		def: def, rep: rep, tr: vh.NewTrace("x"), rng: rand.New(rand.NewSource(seed)),
 		storeHead: 1, tail: 1, okSet: map[uint64]bool{}, base: dssync.MutexWrap(datastore.NewMapDatastore()),
 		attempt: map[uint64]int{}, lost: map[uint64]bool{}}
 	steps := def.Steps
@@ -1266,7 +1426,8 @@ func TestDriver(t *testing.T) {
 	}
 	for i := 0; i < nRandom; i++ {
 		cb := combos[rng.Intn(len(combos))]
-		scenarios = append(scenarios, scenario{Name: fmt.Sprintf("random-%d", i), Range: cb.r, Conc: cb.c,
+		node := vh.EnvInt("VERIF_NODE", 0) == 1
+		scenarios = append(scenarios, scenario{Node: node, K: 1 + rng.Intn(4), Name: fmt.Sprintf("random-%d", i), Range: cb.r, Conc: cb.c,
 			Bg: rng.Intn(3) == 0, Random: 10 + rng.Intn(40), MaxH: 4 + rng.Intn(8)})
 	}
 	// one trace file per (range, conc): the trace specification has them as constants
@@ -1290,7 +1451,13 @@ func TestDriver(t *testing.T) {
 		if sc.MaxH == 0 {
 			sc.MaxH = 6
 		}
-		ok, dump := vh.WithWatchdog(10*time.Minute, func() { runScenario(sc, rep, f, vh.Seed()*7919+int64(i)) })
+		if vh.EnvInt("VERIF_NODE", 0) == 1 {
+			sc.Node = true
+			if sc.K == 0 {
+				sc.K = 1 + i%4
+			}
+		}
+		ok, dump := vh.WithWatchdog(10*time.Minute, func() { runScenario(t, sc, rep, f, vh.Seed()*7919+int64(i)) })
 		if !ok {
 			rep.Inconclusivef("scenario %s hung: %s", sc.Name, dump[:min(len(dump), 4000)])
 			break
